@@ -8,6 +8,7 @@ mod mgen;
 mod props;
 mod refmath;
 mod svm;
+mod world1;
 
 use engine::{Ctx, Tier};
 
